@@ -30,7 +30,7 @@ def gen_scalar(rng, kind):
         return rng.choice([rng.randint(-40, 40) / 8.0, rng.randint(1, 10 ** 6) / 4.0, 0.1 * rng.randint(1, 50), 2.5e-7])
     if kind == 'bool':
         return rng.random() < 0.5
-    return rng.choice(['abc', 'Fit', '', 'x y', 'Fitter', 'a'])
+    return rng.choice(['abc', 'Fit', '', 'x y', 'Fitter', 'a', 'Fit '])
 
 
 def gen_value(rng):
@@ -74,6 +74,7 @@ def perturbations(rng, d):
                 out.append(('value', q(v * (1 + 1e-6)), None, key))
         elif isinstance(v, str):
             out.append(('value', q(v + 'z'), None, key))
+            out.append(('value', q(v + ' '), None, key))                                  # a trailing blank
             if v:
                 out.append(('value', q(v[:-1]), None, key))                               # truncated
                 out.append(('value', q(v[:-1] + ('q' if v[-1] != 'q' else 'r')), None, key))   # same length
@@ -96,6 +97,9 @@ def perturbations(rng, d):
                 elif isinstance(e, str):
                     w[i] = e + 'z'
                     out.append(('value', q(w), None, key))
+                    w5 = list(v)
+                    w5[i] = e + ' '                  # a trailing blank (numpy's string comparisons strip them)
+                    out.append(('value', q(w5), None, key))
                     if e:
                         w4 = list(v)
                         w4[i] = e[:-1] + ('q' if e[-1] != 'q' else 'r')
